@@ -22,7 +22,7 @@ var c13 = core.Register(&core.Prop{
 	Shards: func(tier string) int { return pickTier(tier, 8, 16) },
 	Floors: func(c map[string]int64, tier string) []string {
 		var out []string
-		for _, k := range []string{"roundtrips", "unterminated_checked", "esc:simple", "esc:x", "esc:u", "esc:quote", "esc:backslash", "quote:single", "quote:double", "invalid_utf8_texts", "large_texts", "string_sequences", "codepoint_sweep"} {
+		for _, k := range []string{"roundtrips", "unterminated_checked", "esc:simple", "esc:x", "esc:u", "esc:quote", "esc:backslash", "quote:single", "quote:double", "invalid_utf8_texts", "large_texts", "string_sequences", "codepoint_sweep", "literal_uses"} {
 			if c[k] == 0 {
 				out = append(out, "coverage floor: no "+k)
 			}
@@ -97,7 +97,12 @@ var c13Round = core.Mon(c13, "round-trip", func(w *core.W, c *StrCase) {
 		w.Cur("round-trip", c)
 	}
 	w.Eval(1)
-	v, err, panicked, pv := evalArray1(string(c.Lit), nil)
+	// a literal denotes its text whatever data the runner holds (names in the data that also occur in the text mean nothing)
+	var data map[string]interface{}
+	if core.Hash64(string(c.Lit))%2 == 0 {
+		data = c13Data()
+	}
+	v, err, panicked, pv := evalArray1(string(c.Lit), data)
 	q := fmt.Sprintf("%q", clipS(string(c.Lit), 120))
 	if panicked || err != nil {
 		w.Violation("round-trip", "C13/literal-rejected", c, fmt.Sprintf("%q", clipS(string(c.Text), 80)), fmt.Sprint(pv, err), "literal "+q)
@@ -120,6 +125,39 @@ var c13Round = core.Mon(c13, "round-trip", func(w *core.W, c *StrCase) {
 		}
 		w.Violation("round-trip", "C13/round-trip", c, fmt.Sprintf("%q", clipS(string(c.Text), 80)), fmt.Sprintf("%q", clipS(s, 80)),
 			fmt.Sprintf("literal %s decodes differently from byte %d on (want %q, got %q)", q, i, clipS(string(c.Text[i:]), 12), clipS(s[i:], 12)))
+	}
+})
+
+func c13Data() map[string]interface{} {
+	return map[string]interface{}{"name": "Bob", "a": 1, "b": "bee", "n": 7, "$who": "world", "x41": "X", "u0041": "U", "0": "zero", "fid": func(x interface{}) (interface{}, error) { return x, nil }}
+}
+
+// LitUseCase: a string literal written directly where a builtin, an operator or a host function takes its operand means
+// the same as the literal bound to a local first and the local written there.
+type LitUseCase struct {
+	Lit  []byte `json:"lit"`
+	Tmpl string `json:"tmpl"`
+}
+
+var litUseTemplates = []string{"regexp('a5b\\\\d', %s)", "regexp(%s, 'a')", "regexp(%s, %s)", "len(%s)", "upper(%s)", "lower(%s)", "trim(%s)", "replace('x-y-z', '-', %s)", "replace(%s, 'a', 'b')", "replace('a.b', %s, '!')", "join(['a', 'b'], %s)",
+	"startWith(%s, %s)", "endWith(%s, 'a')", "contains('abc', %s)", "find(%s, 'a')", "lpad('a', %s, 3)", "rpad(%s, 'x', 5)", "toString(%s)", "%s + 'x'", "'x' + %s", "fid(%s)", "typeof %s", "%s ? 1 : 2", "%s == %s", "%s === 'a'",
+	"%s ?? 1", "toFloat(%s)", "toInt(%s)", "includes(['a', '5'], %s)", "mapToArr([], %s)", "mid(%s, 0, 2)", "left(%s, 1)", "right(%s, 1)", "[%s, %s]", "timeFormat(date(2020, 1, 2), %s)", "useTimezone(date(2020, 1, 2), %s)", "%s < 'b'", "-%s", "!%s"}
+
+var c13Use = core.Mon(c13, "literal-in-use", func(w *core.W, c *LitUseCase) {
+	w.Eval(2)
+	w.Count("literal_uses")
+	w.Nontrivial("use:" + c.Tmpl + "|" + string(c.Lit))
+	direct := strings.ReplaceAll(c.Tmpl, "%s", string(c.Lit))
+	viaLocal := "$l = " + string(c.Lit) + ", " + strings.ReplaceAll(c.Tmpl, "%s", "$l")
+	v1, e1, p1, pv1 := resolveIn(c13Data(), direct)
+	v2, e2, p2, pv2 := resolveIn(c13Data(), viaLocal)
+	if p1 || p2 {
+		w.Violation("literal-in-use", "C13/escaped-panic", c, nil, fmt.Sprint(pv1, pv2), direct)
+		return
+	}
+	if o1, o2 := outcome(v1, e1, p1, pv1), outcome(v2, e2, p2, pv2); o1 != o2 {
+		w.Violation("literal-in-use", "C13/literal-means-something-else-here", c, clipS(o2, 200), clipS(o1, 200),
+			fmt.Sprintf("%q differs from %q: the literal written in place does not denote the text it denotes elsewhere", clipS(direct, 160), clipS(viaLocal, 160)))
 	}
 })
 
@@ -175,7 +213,8 @@ var c13Open = core.Mon(c13, "unterminated", func(w *core.W, c *ParseCase) {
 	}
 })
 
-var textPool = []string{"a", "b", " ", "'", "\"", "\\", "\n", "\r", "\t", "\b", "\f", "\v", "\x00", "\x01", "\x7f", "\u0085", "\u2028", "\u2029", "\u00e9", "\u00ff", "\u0100", "\u4e2d", "\U0001F600", "\xff", "\xc3", "\xe2\x80", "\x80", "x41", "u0041", "n", "0", "1", "$", "\u00a0", "\ufeff", "\uffff", "\ud7ff"}
+var textPool = []string{"a", "b", " ", "'", "\"", "\\", "\n", "\r", "\t", "\b", "\f", "\v", "\x00", "\x01", "\x7f", "\u0085", "\u2028", "\u2029", "\u00e9", "\u00ff", "\u0100", "\u4e2d", "\U0001F600", "\xff", "\xc3", "\xe2\x80", "\x80", "x41", "u0041", "n", "0", "1", "$", "\u00a0", "\ufeff", "\uffff", "\ud7ff",
+	"${name}", "${a}", "${$who}", "${", "}", "{", "{{name}}", "%s", "%d", "$1", "\\d", "\\\\d", "\\u0041", "^", "(", "[a", "#{b}", "{0}", "$who", "<b>", "&amp;"}
 
 func randText(r *rand.Rand, maxLen int) []byte {
 	n := r.Intn(maxLen + 1)
@@ -255,6 +294,13 @@ func runC13(w *core.W) {
 	w.ExhaustivePart("every text made of one or two elements of a 37-element pool (quotes, backslash, controls, line breaks, multi-byte, invalid bytes) x 2 quote styles x 4 escape rates")
 	for i, n := 0, w.Pick(150000, 1800000); i < n; i++ {
 		one(randText(r, 64), i)
+	}
+	// literals in use: every template with texts that need escapes
+	ur := w.RNG("uses")
+	for i, n := 0, w.Pick(40000, 400000); i < n; i++ {
+		t := randText(ur, 6)
+		lit := escape(ur, t, "'\""[ur.Intn(2)], []int{0, 40, 100}[ur.Intn(3)], counts)
+		c13Use(w, &LitUseCase{Lit: lit, Tmpl: litUseTemplates[i%len(litUseTemplates)]})
 	}
 	for i, n := 0, w.Pick(2, 8); i < n; i++ {
 		size := []int{4096, 65000}[i%2]
